@@ -58,6 +58,19 @@ func lenOf(v ssa.Value) (string, bool) {
 	if call, ok := v.(*ssa.Call); ok && builtinName(call) == "len" {
 		return path(call.Call.Args[0]), true
 	}
+	// a length getter: `func (x *T) Count() int { return len(x.F) }` called on r is len(r.F)
+	if call, ok := v.(*ssa.Call); ok {
+		if h := call.Call.StaticCallee(); h != nil && len(h.Blocks) == 1 && len(h.Params) == 1 && len(call.Call.Args) == 1 && h.Signature.Results().Len() == 1 {
+			if ret, isR := h.Blocks[0].Instrs[len(h.Blocks[0].Instrs)-1].(*ssa.Return); isR && len(ret.Results) == 1 {
+				if inner, isC := ret.Results[0].(*ssa.Call); isC && builtinName(inner) == "len" {
+					p := path(inner.Call.Args[0])
+					if strings.HasPrefix(p, h.Params[0].Name()+".") {
+						return path(call.Call.Args[0]) + strings.TrimPrefix(p, h.Params[0].Name()), true
+					}
+				}
+			}
+		}
+	}
 	return "", false
 }
 
